@@ -36,3 +36,9 @@ func fuzzSpec(f *testing.F, id string) {
 func FuzzC01(f *testing.F) { fuzzSpec(f, "C01") }
 func FuzzC02(f *testing.F) { fuzzSpec(f, "C02") }
 func FuzzC11(f *testing.F) { fuzzSpec(f, "C11") }
+func FuzzC03(f *testing.F) { fuzzSpec(f, "C03") }
+func FuzzC04(f *testing.F) { fuzzSpec(f, "C04") }
+func FuzzC06(f *testing.F) { fuzzSpec(f, "C06") }
+func FuzzC09(f *testing.F) { fuzzSpec(f, "C09") }
+func FuzzC12(f *testing.F) { fuzzSpec(f, "C12") }
+func FuzzC15(f *testing.F) { fuzzSpec(f, "C15") }
